@@ -165,7 +165,11 @@ def check(case, ctx):
             inner = [a] + [k for k in case.get("cuts_in_parts", []) if a < k < c] + [c]
             parts.append(accumulate(x, inner, mode, (ctxt + f" part [{a},{c})", full) if case.get("observe") else None))
         try:
-            if len(parts) == 2:
+            if len(parts) == 2 and case.get("assoc") == "iadd":
+                left_copy = accumulate(x, [sp[0]] + [k for k in case.get("cuts_in_parts", []) if sp[0] < k < sp[1]] + [sp[1]], mode)
+                tot = left_copy
+                tot += parts[1]  # augmented assignment: the same sum, however the class implements it
+            elif len(parts) == 2:
                 tot = parts[0] + parts[1]
             elif case.get("assoc") == "right":
                 tot = parts[0] + (parts[1] + parts[2])
@@ -203,7 +207,7 @@ def enum_merges(tier):
         for mode in ("basic", "full"):
             for n in (2, 3, 5, 8, 13, 21, nmax):
                 for k in range(1, n):
-                    yield {"family": fam, "n": n, "nch": 3, "mode": mode, "seed": 7 * n, "splits": [k]}
+                    yield {"family": fam, "n": n, "nch": 3, "mode": mode, "seed": 7 * n, "splits": [k], "assoc": "iadd" if (k + n) % 3 == 0 else "left"}
 
 
 @st.composite
@@ -229,7 +233,7 @@ def strat_random(draw, tier):
             k = 1
         case["splits"] = sorted(draw(st.lists(st.integers(1, n - 1), min_size=k, max_size=k, unique=True)))
         case["cuts_in_parts"] = sorted(draw(st.lists(st.integers(1, n - 1), min_size=0, max_size=4, unique=True)))
-        case["assoc"] = draw(st.sampled_from(["left", "right"]))
+        case["assoc"] = draw(st.sampled_from(["left", "right", "iadd"]))
     return case
 
 
